@@ -610,9 +610,11 @@ def gen_module_cfg(rng, spec, nerr):
         cfg['visibility'] = ('bare', rng.choice(['expert', 'advanced', 2]))
     if rng.random() < 0.1:
         cfg['pollinterval'] = ('bare', rng.choice([1, 2.5, 10]))
+    gkeys = {k for g in spec.get('groups', []) for k in g['keys']}
     for p in spec['params']:
-        if p['needscfg'] or rng.random() < 0.5:
-            items = gen_param_cfg(rng, p, force_value=p['needscfg'])
+        ingroup = p['name'] in gkeys            # members of a shared write method: mostly configured, mostly with a value
+        if p['needscfg'] or rng.random() < (0.85 if ingroup else 0.5):
+            items = gen_param_cfg(rng, p, force_value=p['needscfg'] or (ingroup and rng.random() < 0.8))
             if items:
                 cfg[p['name']] = ('dict', items)
     kinds = []
